@@ -250,12 +250,12 @@ var $send = (chan, value) => {
 
     var thisGoroutine = $curGoroutine;
     var closedDuringSend;
+    $block(); /* throws in a JavaScript callback: must happen before anything is queued */
     chan.$sendQueue.push(closed => {
         closedDuringSend = closed;
         $schedule(thisGoroutine);
         return value;
     });
-    $block();
     return {
         $blk() {
             if (closedDuringSend) {
@@ -283,8 +283,8 @@ var $recv = chan => {
         f.value = v;
         $schedule(thisGoroutine);
     };
+    $block(); /* throws in a JavaScript callback: must happen before anything is queued */
     chan.$recvQueue.push(queueEntry);
-    $block();
     return f;
 };
 var $close = chan => {
@@ -373,6 +373,7 @@ var $select = comms => {
             }
         }
     };
+    $block(); /* throws in a JavaScript callback: must happen before anything is queued */
     for (var i = 0; i < comms.length; i++) {
         (i => {
             var comm = comms[i];
@@ -400,6 +401,5 @@ var $select = comms => {
             }
         })(i);
     }
-    $block();
     return f;
 };
